@@ -146,6 +146,11 @@ EXTRA_PROGRAMS: Dict[str, Dict[str, Any]] = {
     "constants-and-expressions": {"root.yaml": {"constants": {"N": 3, "F": 2.5, "M2": "N * 2 + 1", "NEG": -4, "HEXV": "0x10", "EXPR": "(N + M2) * 2"},
                                                 "struct_defs": {"ST": {"fields": {"a": "int32[N]", "b": "double[M2]", "c": "char[EXPR]", "d": "uint8[N*2]"}}},
                                                 "message_defs": {"MS": {"id": 4100, "fields": {"s": "ST[N]", "t": "int16[2 * N]"}}}}},
+    "overlapping-constant-names": {"root.yaml": {"imports": ["k.yaml"], "constants": {"TOTAL": "CHANS * CHANS_PER_BANK", "REV": "CHANS_PER_BANK * CHANS", "SUM": "N + N2 + N10",
+                                                                                   "MIX": "N2 - N", "AREA": "W * W_H + W"},
+                                                 "struct_defs": {"ST": {"fields": {"a": "int16[TOTAL]", "b": "uint8[SUM]", "c": "char[N10 - N]"}}},
+                                                 "message_defs": {"MS": {"id": 4109, "fields": {"s": "ST", "d": "double[MIX]"}}}},
+                                   "k.yaml": {"constants": {"CHANS": 4, "CHANS_PER_BANK": 8, "N": 3, "N2": 7, "N10": 11, "W": 2, "W_H": 5}}},
     "string-constants": {"root.yaml": {"string_constants": {"GREETING": "hello world", "PATHLIKE": "a/b_c-d.e"}, "message_defs": {"MS": {"id": 4101, "fields": {"a": "int32"}}}}},
     "reserved-ids": {"root.yaml": {"message_defs": {"_RESERVED_": {"id": [4200, "4202 - 4204", "4210 to 4211"]}, "MS": {"id": 4201, "fields": {"a": "int8"}}}}},
     "reserved-in-two-files": {"root.yaml": {"imports": ["lib.yaml"], "message_defs": {"_RESERVED_": {"id": [4300, "4302 - 4303"]}, "MS": {"id": 4301, "fields": {"a": "int8"}}}},
@@ -166,6 +171,12 @@ EXTRA_PROGRAMS: Dict[str, Dict[str, Any]] = {
 }
 
 
+# constant values computed independently of the compiler (name -> value)
+EXTRA_CONSTANTS = {
+    "overlapping-constant-names": {"TOTAL": 32, "REV": 32, "SUM": 21, "MIX": 4, "AREA": 12, "CHANS": 4, "N10": 11},
+    "constants-and-expressions": {"N": 3, "F": 2.5, "M2": 7, "NEG": -4, "HEXV": 16, "EXPR": 20},
+}
+EXTRA_SIZES = {"overlapping-constant-names": {"ST": 2 * 32 + 21 + 8 + 1, "MS": 2 * 32 + 21 + 8 + 1 + 2 + 4 * 8}}
 EXTRA_FEATURES = {"aliases-of-core-types": ["alias-of-struct"], "message-as-field": ["message-as-field"]}
 
 
@@ -180,7 +191,7 @@ def _error_class(p) -> str:
     return exc.split(":")[0][:40]
 
 
-def check_program(prog: defx.Program, d: str, core_on: bool) -> List[Dict[str, Any]]:
+def check_program(prog: defx.Program, d: str, core_on: bool, extra: str = "") -> List[Dict[str, Any]]:
     from pyrtma.parser import ParserError
 
     problems: List[Dict[str, Any]] = []
@@ -202,6 +213,9 @@ def check_program(prog: defx.Program, d: str, core_on: bool) -> List[Dict[str, A
                     problems.append({"kind": "python-registry", "message": name, "got": reg, "recorded_size": dd["recorded_size"]})
             if dd["size"] != dd["recorded_size"]:
                 problems.append({"kind": "python-size", "name": name, "ctypes": dd["size"], "recorded": dd["recorded_size"]})
+        for cname, want in EXTRA_CONSTANTS.get(extra, {}).items():
+            if py["names"].get(cname) != want:
+                problems.append({"kind": "constant-value", "name": cname, "got": py["names"].get(cname), "want": want})
     except BaseException as e:
         if isinstance(e, (KeyboardInterrupt, core.HarnessError)):
             raise
@@ -255,7 +269,7 @@ def run_chunk(items) -> List[Dict[str, Any]]:
             d = os.path.join(base, f"p{n}")
             os.makedirs(d)
             prog = defx.Program(files)
-            r = check_program(prog, d, core_on)
+            r = check_program(prog, d, core_on, extra=cid[1] if isinstance(cid, tuple) else "")
             if isinstance(r, tuple):
                 probs, js = r
                 jsfiles[cid] = js
@@ -313,14 +327,14 @@ def run(tier: str) -> int:
                      "and loaded in Python (import), C (gcc), JavaScript (node), MATLAB (subset interpreter). Distinct non-trivial "
                      "= programs with at least one cross-definition reference.")
     cases = all_cases(tier)
-    items = [(i, case_files(c), c["core"]) for i, c in enumerate(cases)]
+    items = [((i, c["extra"]) if "extra" in c else i, case_files(c), c["core"]) for i, c in enumerate(cases)]
     chunks = core.chunks(core.shuffled(items, "c15"), 40)
     res = core.pmap(run_chunk, chunks)
     core.close_pool()
     nontrivial = 0
     for ch in res:
         for r in ch:
-            c = cases[r["id"]]
+            c = cases[r["id"][0] if isinstance(r["id"], tuple) else r["id"]]
             feats = features(c["defs"]) if "defs" in c else EXTRA_FEATURES.get(c["extra"], [c["extra"]])
             if "defs" in c and any(d["ref"] is not None for d in c["defs"]):
                 nontrivial += 1
@@ -357,7 +371,7 @@ def _describe(c) -> str:
 
 def replay(case) -> int:
     c = case["case"]
-    r = run_chunk([(0, case_files(c), c["core"])])
+    r = run_chunk([((0, c["extra"]) if "extra" in c else 0, case_files(c), c["core"])])
     print("  program:", _describe(c))
     for f, t in case.get("files", {}).get("files", {}).items():
         print(f"  --- {f}\n  " + t.replace("\n", "\n  "))
